@@ -206,6 +206,7 @@ class Module:
                 continue
             if not inj.get("sticky"):
                 inj["used"] = True
+            inj["fired"] = inj.get("fired", 0) + 1
             self.sim.fired("inject:" + where)
             return inj
         return None
@@ -329,6 +330,10 @@ class Module:
         target, err = self.route(hops)
         if target is None:
             log["route_error"] = err
+            # every scenario connects along a route that exists: a route the chassis cannot follow does not
+            # denote the module the driver was pointed at
+            world.hits.hit("C09", "path.denotes", f"Forward Open connection path {hops} cannot be followed: {err}",
+                           kind="route", rw="fo", unresolved=True)
             return build_mr_reply(req.service, ST_CONN_FAIL, ext=(0x0311,))
         if not (len(rest) == 2 and rest[0][:3] == ("logical", "class", 2)
                 and rest[1][:3] == ("logical", "instance", 1)):
@@ -704,8 +709,8 @@ class EipEndpoint:
         # C04 (a): size of the connected data item vs what was granted
         if len(dd) > c.o2t_size:
             world.hits.hit("C04", "size.request", f"connected data item of {len(dd)} bytes on a connection "
-                           f"negotiated for {c.o2t_size}", rules=["R-CONN-SIZE"], over=len(dd) - c.o2t_size,
-                           cs=c.o2t_size)
+                           f"negotiated for {c.o2t_size}", rules=["R-CONN-SIZE"],
+                           over_class=("<=8" if len(dd) - c.o2t_size <= 8 else ">8"), cs=c.o2t_size)
             world.log(kind="oversize_request", size=len(dd), cs=c.o2t_size)
             rep = build_mr_reply(dd[2] if len(dd) > 2 else 0, ST_TOO_MUCH)
             self._send_connected(c, seq, rep, cmd, session, ctx8, tmo, None)
